@@ -178,8 +178,28 @@ def run_case(c):
         smats = setup.smat_list(max(1, 40 // crystals.natoms(name)), rng=rng, n_random=2)
         case = {"crystal": {"name": name, "order": "random", "order_seed": int(rng.integers(100)), "int_shift": True, "rot_seed": int(rng.integers(100))},
                 "smat": smats[rng.integers(len(smats))], "store_dense_svecs": c["dense"]}
-        ph, cd = setup.build_phonopy(case)
-        pm = cd["pmat"]
+        # the tolerance the cells are built with must be the tolerance of their shortest-vector tables: non-default symprec, and (for the loose one)
+        # positions with noise well below it, so that tied images agree within symprec but not to 1e-5
+        zsym = float([1e-5, 1e-5, 1e-3, 1e-7][int(rng.integers(4))])
+        noise = 0.15 * zsym if zsym > 1e-5 and rng.integers(2) else 0.0
+        if zsym != 1e-5 or noise:
+            from phonopy import Phonopy
+
+            cd = crystals.make(**case["crystal"])
+            at = crystals.to_atoms(cd)
+            if noise:
+                dc = rng.standard_normal((len(at), 3))
+                dc *= noise * rng.uniform(0.3, 1.0, (len(at), 1)) / np.linalg.norm(dc, axis=1)[:, None]
+                at.scaled_positions = np.array(at.scaled_positions) + dc @ np.linalg.inv(np.array(at.cell))
+            pm_ = cd["pmat"] if (cd["pmat"] != "P" and rng.integers(2)) else None
+            try:
+                ph = Phonopy(at, supercell_matrix=case["smat"], primitive_matrix=pm_, symprec=zsym, store_dense_svecs=c["dense"], log_level=0)
+            except Exception as e:
+                return {"skip": "phonopy could not build the noisy cell at symprec %g: %s" % (zsym, type(e).__name__)}
+            pm = "P"
+        else:
+            ph, cd = setup.build_phonopy(case)
+            pm = cd["pmat"]
         if pm != "P" and rng.integers(2):
             ph, cd = setup.build_phonopy(dict(case, pmat=pm))
         sc, pr = ph.supercell, ph.primitive
@@ -189,7 +209,10 @@ def run_case(c):
         via_primitive = pr
     else:
         L, xs, xp = prob
-    symprec = c.get("symprec", SYMPREC) if via_primitive is None else SYMPREC
+    symprec = c.get("symprec", SYMPREC) if via_primitive is None else zsym
+    if via_primitive is not None:
+        obs["zoo_symprec_%g" % zsym] = 1
+        obs["zoo_noisy"] = int(noise > 0)
     sp = ShortestPairs(L, xs, xp, store_dense_svecs=c["dense"], symprec=symprec)
     svecs, multi = sp.shortest_vectors, sp.multiplicities
     sp2 = ShortestPairs(L, xs, xp, store_dense_svecs=not c["dense"], symprec=symprec)
